@@ -87,11 +87,25 @@ def _op():
     )
 
 
+def _chain():
+    """Three-step chains that blind generation rarely lines up on one object: an operation that may set internal
+    state (sort / reverse sort / copy / slicing), an in-place merge, then an operation that recomputes best."""
+    first = st.one_of(st.tuples(st.just("sort"), st.booleans()), st.tuples(st.just("sort"), st.just(False)),
+                      st.tuples(st.just("copy"), st.just(True)), st.tuples(st.just("to_spin"), st.just(True)),
+                      st.tuples(st.just("to_boolean"), st.just(True)))
+    merge = st.one_of(st.tuples(st.just("iadd"), _kind, _items()), st.tuples(st.just("extend"), _kind, _items()),
+                      st.tuples(st.just("setslice"), _sl, _sl, st.just(None), _items(5)),
+                      st.tuples(st.just("insert"), _idx, _item()))
+    last = st.one_of(st.tuples(st.just("delitem"), _idx), st.tuples(st.just("delitem_best")), st.tuples(st.just("pop_best")),
+                     st.tuples(st.just("delslice"), _sl, _sl, _step), st.tuples(st.just("remove"), _idx))
+    return st.tuples(st.just("chain"), st.tuples(first, merge, last))
+
+
 def history():
     return st.fixed_dictionaries({
         "init": _items(4),
         "init_kind": _kind,
-        "ops": st.lists(_op(), min_size=1, max_size=40),
+        "ops": st.lists(st.one_of(_op(), _op(), _op(), _op(), _op(), _chain()), min_size=1, max_size=40),
         # element type of the state entries handed to AnnealResult: python ints, numpy scalars (unsigned for boolean
         # states, signed for spin states), floats
         "vtype": gen.pick(("int", 5), ("np_small", 1), ("np_int64", 1), ("float", 1)),
@@ -191,7 +205,14 @@ def run_case(spec, rec):
     real = lib(qsim.AnnealResults, _operand(qsim, spec["init_kind"], spec["init"]), what="construct")
     check_invariant(real, model, "construct", qsim)
 
+    ops = []
     for op in spec["ops"]:
+        if op[0] == "chain":
+            ops.extend(op[1])
+            classes.add("chain")
+        else:
+            ops.append(op)
+    for op in ops:
         name = op[0]
         n = len(model)
 
